@@ -202,9 +202,9 @@ theorem upgrade_frame (rel ns : String) (to force dry : Bool) (current target : 
 
 /-- A successful rollback puts back every resource of the target revision, removes what the
 current one added (keep policy aside), and touches nothing else. -/
-theorem rollback_targets_present (rel ns : String) (force : Bool) (current target : List Obj) (s : Store)
-    (hn : DistinctKeys target) (hok : (rollbackCluster rel ns force current target s).ok = true) :
-    ∀ t ∈ target, ∃ o, (rollbackCluster rel ns force current target s).store.get? t.key = some o ∧
+theorem rollback_targets_present (rel ns : String) (force : Bool) (current target : List Obj) (s : Store) (rej : List String)
+    (hn : DistinctKeys target) (hok : (rollbackCluster rel ns force current target s rej).ok = true) :
+    ∀ t ∈ target, ∃ o, (rollbackCluster rel ns force current target s rej).store.get? t.key = some o ∧
       (fullMerge force false t = true → o.covers (stamp rel ns t)) := by
   intro t ht
   unfold rollbackCluster at hok ⊢
@@ -212,33 +212,33 @@ theorem rollback_targets_present (rel ns : String) (force : Bool) (current targe
   have hn' : DistinctKeys (target.map (stamp rel ns)) := by
     unfold DistinctKeys keys at hn ⊢
     simpa [List.map_map, Function.comp_def, stamp_key] using hn
-  have hok' : (updateR [] force false current (target.map (stamp rel ns)) s).err = false := by simpa using hok
-  obtain ⟨o, ho, hc⟩ := update_targets_present [] force false current (target.map (stamp rel ns)) s
+  have hok' : (updateR rej force false current (target.map (stamp rel ns)) s).err = false := by simpa using hok
+  obtain ⟨o, ho, hc⟩ := update_targets_present rej force false current (target.map (stamp rel ns)) s
     hn' hok' (stamp rel ns t) (List.mem_map_of_mem ht)
   exact ⟨o, ho, fun hm => hc (by simpa [fullMerge, stamp_typed] using hm)⟩
 
-theorem rollback_removed_deleted (rel ns : String) (force : Bool) (current target : List Obj) (s : Store)
-    (hok : (rollbackCluster rel ns force current target s).ok = true) :
+theorem rollback_removed_deleted (rel ns : String) (force : Bool) (current target : List Obj) (s : Store) (rej : List String)
+    (hok : (rollbackCluster rel ns force current target s rej).ok = true) :
     ∀ o ∈ current, o.key ∉ keys target →
-      (rollbackCluster rel ns force current target s).store.get? o.key = none ∨
+      (rollbackCluster rel ns force current target s rej).store.get? o.key = none ∨
       ∃ live, s.get? o.key = some live ∧ keepLive live = true ∧
-        (rollbackCluster rel ns force current target s).store.get? o.key = some live := by
+        (rollbackCluster rel ns force current target s rej).store.get? o.key = some live := by
   intro o ho hk
   unfold rollbackCluster at hok ⊢
   simp only at hok ⊢
-  have hok' : (updateR [] force false current (target.map (stamp rel ns)) s).err = false := by simpa using hok
+  have hok' : (updateR rej force false current (target.map (stamp rel ns)) s).err = false := by simpa using hok
   have hk' : o.key ∉ keys (target.map (stamp rel ns)) := by
     simpa [keys, List.map_map, Function.comp_def, stamp_key] using hk
-  exact update_removed_deleted [] force false current _ s hok' o ho hk'
+  exact update_removed_deleted rej force false current _ s hok' o ho hk'
 
-theorem rollback_frame (rel ns : String) (force : Bool) (current target : List Obj) (s : Store) (k : String)
+theorem rollback_frame (rel ns : String) (force : Bool) (current target : List Obj) (s : Store) (rej : List String) (k : String)
     (ht : k ∉ keys target) (hc : k ∉ keys current) :
-    (rollbackCluster rel ns force current target s).store.get? k = s.get? k := by
+    (rollbackCluster rel ns force current target s rej).store.get? k = s.get? k := by
   unfold rollbackCluster
   simp only
   have ht' : k ∉ keys (target.map (stamp rel ns)) := by
     simpa [keys, List.map_map, Function.comp_def, stamp_key] using ht
-  exact update_frame [] _ _ _ _ _ _ ht' hc
+  exact update_frame rej _ _ _ _ _ _ ht' hc
 
 /-! ### install -/
 
